@@ -667,7 +667,6 @@ def run_core(rep, tier, exe, man):
     # parser agreement on arbitrary core texts
     ntext = 30000 if tier == 'thorough' else 2000
     texts = [G.core_text(rnd, rnd.randint(1, 5 if tier == 'thorough' else 4), rnd.choice([0, .2, .5])) for _ in range(ntext)]
-    texts += G.op_pair_texts()[:0]
     texts = list(dict.fromkeys(texts))
     realp = [json.loads(x) for x in run_impl('core', [json.dumps({'k': 'parse', 't': t}) for t in texts])]
     idx = [i for i, r in enumerate(realp) if not r['items'].startswith('LEXERR') and '?' not in r['items']]
@@ -1111,7 +1110,8 @@ def run(tier):
 
 def replay(path):
     d = json.load(open(path))
-    case = d['replay'].get('case') or d['replay'].get('original_case')
+    rp = d.get('replay', d)                       # violation replay file, or a corpus file {"case": ...}
+    case = rp.get('case') or rp.get('original_case')
     c = json.loads(case)
     if 'e' in c:
         print('case :', case)
